@@ -31,7 +31,9 @@ RULE = ('(ops) 14 binary operators x all ordered pairs and 2 unary x all values 
         'operators x all ordered pairs of the pool; (models) hand-built schema-valid models: every library function called '
         'without an args member, script functions without args / with empty bodies / lastArgArray, non-function values in '
         'call position (global and local), unknown labels, includes with failing fetchFn, statement budget; (pow_int) the '
-        'int ** int pairs whose exact result is astronomically large, each in a forked child under a CPU and memory guard. '
+        'int ** int pairs whose exact result is astronomically large, in the four contexts, each in a forked child under a CPU '
+        'and memory guard; (growth) eight 40-statement loops that double a string/int/array per statement, same guard; '
+        '(chains, thorough only) (va op1 vb) op2 vc for all 14^2 operator pairs and all ordered triples of the pool. '
         'A case is non-trivial when an error was actually contained or raised: an operator on two non-null operands that '
         'evaluated to null, a library call that failed, a model that raised a documented exception.')
 ASSUMPTIONS = [
@@ -196,29 +198,36 @@ def op_script(op, ctx, unary):
     return _CACHE[key]
 
 
-def check_ops(case, acc):
+def ops_thunk(case, logs):
+    """-> (thunk evaluating the case with the real interpreter, source text or None, private operand values)"""
     bs = impl()[0]
     pool = pool_a()
     op, ctx, idx = case['op'], case['ctx'], case['idx']
     unary = len(idx) == 1
     vals = copy.deepcopy(tuple(pool[i][1] for i in idx))
-    case = dict(case, labels=[pool[i][0] for i in idx])
-    if not unary and op == '**' and pow_hangs(vals[0], vals[1]):
-        acc.pruned += 1
-        return 'pruned'
     g = {'va': vals[0], 'vb': vals[1] if not unary else None}
-    logs = []
     options = {'globals': g, 'logFn': logs.append, 'debug': True, 'maxStatements': 1000}
     if ctx == 'expr':
         if unary:
             expr = {'unary': {'op': op, 'expr': {'variable': 'va'}}}
         else:
             expr = {'binary': {'op': op, 'left': {'variable': 'va'}, 'right': {'variable': 'vb'}}}
-        out = run_guarded(lambda: bs.evaluate_expression(expr, options, None, False))
-        source = None
-    else:
-        source, model = op_script(op, ctx, unary)
-        out = run_guarded(lambda: bs.execute_script(model, options))
+        return (lambda: bs.evaluate_expression(expr, options, None, False)), None, vals
+    source, model = op_script(op, ctx, unary)
+    return (lambda: bs.execute_script(model, options)), source, vals
+
+
+def check_ops(case, acc):
+    pool = pool_a()
+    op, ctx, idx = case['op'], case['ctx'], case['idx']
+    unary = len(idx) == 1
+    case = dict(case, labels=[pool[i][0] for i in idx])
+    if not unary and op == '**' and pow_hangs(pool[idx[0]][1], pool[idx[1]][1]):
+        acc.pruned += 1     # run by the guarded family pow_int instead
+        return 'pruned'
+    logs = []
+    thunk, source, vals = ops_thunk(case, logs)
+    out = run_guarded(thunk)
     acc.evals += 1
     what = f'operator {op} on ({", ".join(case["labels"])}) in context {ctx}'
     if source:
@@ -255,6 +264,58 @@ def fam_ops(arg):
                 if ctx == 'func' and j == 1 and i in (3, 13):
                     acc.sample({'operator': op, 'context': ctx, 'operands': [pool_a()[i][0], pool_a()[j][0]], 'outcome': kind,
                                 'source': op_script(op, ctx, False)[0]})
+    return acc.result()
+
+
+# ----------------------------------------------------------------------------------------------------------------
+# Family chains (thorough): (va op1 vb) op2 vc - intermediate results (big ints, inf, nan, null, shifted datetimes,
+# concatenations) as operands
+# ----------------------------------------------------------------------------------------------------------------
+
+def check_chains(case, acc):
+    bs = impl()[0]
+    pool = pool_a()
+    op1, op2 = case['ops']
+    idx = case['idx']
+    vals = copy.deepcopy(tuple(pool[i][1] for i in idx))
+    case = dict(case, labels=[pool[i][0] for i in idx])
+    if op1 == '**' and pow_hangs(vals[0], vals[1]):
+        acc.pruned += 1
+        return 'pruned'
+    g = {'va': vals[0], 'vb': vals[1], 'vc': vals[2]}
+    inner = {'binary': {'op': op1, 'left': {'variable': 'va'}, 'right': {'variable': 'vb'}}}
+    what = f'expression (va {op1} vb) {op2} vc on ({", ".join(case["labels"])})'
+    if op2 == '**':
+        first = run_guarded(lambda: bs.evaluate_expression(inner, {'globals': g}, None, False))
+        acc.evals += 1
+        if not check_outcome(first, case, acc, what + ', inner operation'):
+            return 'violation'
+        if first[0] == 'value' and pow_hangs(first[1], vals[2]):
+            acc.pruned += 1
+            return 'pruned'
+    expr = {'binary': {'op': op2, 'left': {'group': inner}, 'right': {'variable': 'vc'}}}
+    out = run_guarded(lambda: bs.evaluate_expression(expr, {'globals': g}, None, False))
+    acc.evals += 1
+    if not check_outcome(out, case, acc, what):
+        return 'violation'
+    if out[0] == 'value':
+        if out[1] is None and all(v is not None for v in vals):
+            acc.nontrivial += 1
+        return value_kind(out[1])
+    return out[0] + ':' + out[1]
+
+
+def fam_chains(arg):
+    acc = Acc('chains')
+    for op1, i in arg:
+        for op2 in BIN_OPS:
+            for j in range(N_A):
+                for k in range(N_A):
+                    acc.cases += 1
+                    kind = check_chains({'ops': [op1, op2], 'idx': [i, j, k]}, acc)
+                    acc.outcome((op1, op2, kind))
+        acc.sample({'expression': f'(va {op1} vb) / vc', 'operands': [pool_a()[i][0], 'int1000', 'int0'],
+                    'outcome': check_chains({'ops': [op1, '/'], 'idx': [i, 18, 15]}, Acc('chains'))})
     return acc.result()
 
 
@@ -691,15 +752,33 @@ POW_MEM = 256 << 20
 POW_SCRIPT = "return numberParseInt('2') ** numberParseInt('9007199254740993')\n"
 
 
-def pow_pairs():
+def pow_cases():
+    """Every (int, int) pair of the pool that the main operator family delegates, in all four contexts, plus one pure script."""
     pool = pool_a()
     out = []
-    for i, (la, a) in enumerate(pool):
-        for j, (lb, b) in enumerate(pool):
+    for i, (_, a) in enumerate(pool):
+        for j, (_, b) in enumerate(pool):
             if pow_hangs(a, b):
-                out.append({'i': i, 'j': j, 'labels': [la, lb]})
+                for ctx in CONTEXTS:
+                    out.append({'op': '**', 'ctx': ctx, 'idx': [i, j]})
     out.append({'script': POW_SCRIPT})
     return out
+
+
+def _loop(init, step, ret):
+    return f"{init}\nix = 0\nwhile ix < 40:\n    {step}\n    ix = ix + 1\nendwhile\nreturn {ret}\n"
+
+
+GROWTH = [
+    ('string doubling by +', _loop("ss = 'ab'", 'ss = ss + ss', 'stringLength(ss)')),
+    ('integer squaring by *', _loop("xx = numberParseInt('3')", 'xx = xx * xx', 'xx > 0')),
+    ('integer squaring by **', _loop("xx = numberParseInt('3')", "xx = xx ** numberParseInt('2')", 'xx')),
+    ('integer growth by + and -', _loop("xx = numberParseInt('3')", 'xx = xx + xx - 1', 'xx > 0')),
+    ('array doubling by arrayExtend', _loop('aa = arrayNew(1)', 'arrayExtend(aa, aa)', 'arrayLength(aa)')),
+    ('string doubling by stringRepeat', _loop("ss = 'ab'", 'ss = stringRepeat(ss, 2)', 'stringLength(ss)')),
+    ('string doubling by arrayJoin', _loop("ss = 'ab'", "ss = arrayJoin(arrayNew(ss, ss), '')", 'stringLength(ss)')),
+    ('string doubling by stringReplace', _loop("ss = 'ab'", "ss = stringReplace(ss, 'a', ss)", 'stringLength(ss)')),
+]
 
 
 def guarded_child(thunk):
@@ -738,6 +817,26 @@ def guarded_child(thunk):
     return tuple(json.loads(data.decode()))
 
 
+GUARD_EXPECTED = 'a BareScript value (null) or BareScriptRuntimeError, in bounded time'
+
+
+def guard_actual(detail):
+    # Deliberately the same text whether the child was killed by the CPU guard or ran out of memory (MemoryError): which of
+    # the two happens first depends on the machine, the verdict does not.
+    return (f'no value and no documented exception within the guard ({POW_CPU_S} s CPU, {POW_MEM >> 20} MiB): {detail}')
+
+
+def guarded_verdict(out):
+    """-> None if the child delivered a BareScript value or a documented exception, else a word for the outcome class."""
+    if out[0] == 'doc':
+        return None
+    if out[0] == 'value':
+        return 'host value' if out[2] else None
+    if out[0] == 'host-exc' and out[1] != 'MemoryError':
+        return 'host exception ' + out[1]
+    return 'exhausted'
+
+
 def check_pow_int(case, acc):
     bs = impl()[0]
     if 'script' in case:
@@ -746,21 +845,20 @@ def check_pow_int(case, acc):
         what = 'script ' + case['script'].strip()
     else:
         pool = pool_a()
-        a, b = pool[case['i']][1], pool[case['j']][1]
-        expr = {'binary': {'op': '**', 'left': {'variable': 'va'}, 'right': {'variable': 'vb'}}}
-        thunk = lambda: bs.evaluate_expression(expr, {'globals': {'va': a, 'vb': b}}, None, False)  # noqa: E731
-        what = f'operator ** on host ints ({pool[case["i"]][0]}, {pool[case["j"]][0]})'
+        thunk, _, _ = ops_thunk(case, [])
+        what = f'operator ** on host ints ({pool[case["idx"][0]][0]}, {pool[case["idx"][1]][0]}) in context {case["ctx"]}'
     out = guarded_child(thunk)
     acc.evals += 1
-    if out[0] in ('value', 'doc') and not (out[0] == 'value' and out[2]):
+    bad = guarded_verdict(out)
+    if bad is None:
         return out[0] + ':' + str(out[1])
-    # Deliberately the same text whether the child was killed by the CPU guard or ran out of memory (MemoryError): which of
-    # the two happens first depends on the machine, the verdict does not.
-    acc.violation(case, 'a BareScript value (null) or BareScriptRuntimeError, in bounded time',
-                  f'no value and no documented exception within the guard ({POW_CPU_S} s CPU, {POW_MEM >> 20} MiB): the exact integer power is being computed '
-                  'by the host; it ends in MemoryError, which the operator handler does not contain',
-                  f'{what}: int ** int with an astronomically large exact result is neither refused nor contained')
-    return 'unbounded'
+    if bad == 'exhausted':
+        acc.violation(case, GUARD_EXPECTED, guard_actual('the exact integer power is being computed by the host; it ends in MemoryError, which the '
+                                                         'operator handler does not contain'),
+                      f'{what}: int ** int with an astronomically large exact result is neither refused nor contained')
+    else:
+        acc.violation(case, GUARD_EXPECTED, bad, f'{what}: {bad} escapes')
+    return bad
 
 
 def fam_pow_int(arg):
@@ -768,9 +866,42 @@ def fam_pow_int(arg):
     for case in arg:
         acc.cases += 1
         kind = check_pow_int(case, acc)
-        acc.outcome(kind if kind != 'unbounded' else ('unbounded', case.get('i'), case.get('j')))
-        acc.nontrivial += 1 if kind != 'value:bigint' else 0
-        acc.sample({'case': case.get('labels') or case.get('script'), 'outcome': kind})
+        acc.outcome((kind, case.get('ctx'), 'script' in case))
+        if kind == 'value:null':
+            acc.nontrivial += 1      # the huge power was refused (contained) rather than computed
+        if 'script' in case or case.get('ctx') == 'func':
+            acc.sample({'case': case.get('script') or {'ctx': case['ctx'], 'operands': [pool_a()[i][0] for i in case['idx']]}, 'outcome': kind})
+    return acc.result()
+
+
+def check_growth(case, acc):
+    bs = impl()[0]
+    label, source = GROWTH[case['g']]
+    model = bs.parse_script(source)
+    out = guarded_child(lambda: bs.execute_script(model, {'globals': {}, 'maxStatements': 1000}))
+    acc.evals += 1
+    bad = guarded_verdict(out)
+    case = dict(case, label=label, source=source)
+    if bad is None:
+        return out[0] + ':' + str(out[1])
+    if bad == 'exhausted':
+        acc.violation(case, GUARD_EXPECTED, guard_actual('a value doubles in size with every statement; the operator is neither refused nor is the '
+                                                         'resulting MemoryError contained'),
+                      f'{label}: 40 statements exhaust the host through an operator (the statement budget does not bound it)')
+    else:
+        acc.violation(case, GUARD_EXPECTED, bad, f'{label}: {bad} escapes')
+    return bad
+
+
+def fam_growth(arg):
+    acc = Acc('growth')
+    for case in arg:
+        acc.cases += 1
+        kind = check_growth(case, acc)
+        acc.outcome((case['g'], kind))
+        if kind.startswith('value'):
+            acc.nontrivial += 1
+        acc.sample({'program': GROWTH[case['g']][0], 'source': GROWTH[case['g']][1], 'outcome': kind})
     return acc.result()
 
 
@@ -785,8 +916,13 @@ def families(tier):
     nt = len(templates())
     prog_shards = [(t, op, i) for t in range(nt) for op in BIN_OPS for i in range(N_A)]
     mcases = model_case_list()
-    pows = pow_pairs()
-    return [
+    pows = pow_cases()
+    extra = []
+    if tier == 'thorough':
+        extra.append(Family('chains', fam_chains, [[x] for x in op_shards if x[1] is not None],
+                            f'{len(BIN_OPS)}^2 operator pairs x {N_A}^3 ordered operand triples, (va op1 vb) op2 vc through evaluate_expression',
+                            expected=len(BIN_OPS) ** 2 * N_A ** 3))
+    fams = [
         Family('ops', fam_ops, split(op_shards, 32),
                f'{len(BIN_OPS)} binary operators x {N_A}^2 ordered pairs + {len(UN_OPS)} unary x {N_A} values, x {len(CONTEXTS)} contexts',
                expected=(len(BIN_OPS) * N_A * N_A + len(UN_OPS) * N_A) * len(CONTEXTS)),
@@ -797,12 +933,16 @@ def families(tier):
                expected=nt * len(BIN_OPS) * N_A * N_A),
         Family('models', fam_models, split(mcases, 16), f'{len(model_cases())} hand-built schema-valid models + {len(fids)} functions x {len(SHAPES)} '
                'call shapes without an args member', expected=len(model_cases()) + len(fids) * len(SHAPES)),
-        Family('pow_int', fam_pow_int, [[c] for c in pows], f'{len(pows)} int ** int cases with astronomically large exact result, each in a guarded child process',
+        Family('pow_int', fam_pow_int, [[c] for c in pows], f'{len(pows)} int ** int cases with astronomically large exact result (the pairs the family ops '
+               f'delegates, x {len(CONTEXTS)} contexts, + 1 pure script), each in a forked child under a {POW_CPU_S} s CPU / {POW_MEM >> 20} MiB guard',
                expected=len(pows)),
+        Family('growth', fam_growth, [[{'g': g}] for g in range(len(GROWTH))], f'{len(GROWTH)} loops of 40 statements that double a string / int / array with every '
+               'statement, each in a forked child under the same guard', expected=len(GROWTH)),
     ]
+    return fams[:1] + extra + fams[1:]
 
 
-_CHECKS = {'ops': check_ops, 'lib': check_lib, 'programs': check_programs, 'models': check_models, 'pow_int': check_pow_int}
+_CHECKS = {'ops': check_ops, 'lib': check_lib, 'programs': check_programs, 'models': check_models, 'pow_int': check_pow_int, 'growth': check_growth, 'chains': check_chains}
 
 
 def replay(family, case):
